@@ -36,9 +36,13 @@ pub fn cmd_opts(o: &Opts) -> Result<(), String> {
                         let size = lim["size"].as_u64().unwrap() as usize;
                         let dfa = lim["dfa"].as_u64().unwrap() as usize;
                         let dfafirst = lim["dfafirst"].as_bool().unwrap();
+                        let ci = lim["ci"].as_u64().unwrap_or(0);
                         let p2 = pat.clone();
                         let re = build(move || {
                             let mut b = RegexBuilder::new(&p2);
+                            if ci == 1 {
+                                b.case_insensitive(true);
+                            }
                             if dfafirst && dfa > 0 {
                                 b.delegate_dfa_size_limit(dfa);
                             }
@@ -47,6 +51,9 @@ pub fn cmd_opts(o: &Opts) -> Result<(), String> {
                             }
                             if !dfafirst && dfa > 0 {
                                 b.delegate_dfa_size_limit(dfa);
+                            }
+                            if ci == 2 {
+                                b.case_insensitive(true);
                             }
                             b.build()
                         });
